@@ -227,7 +227,7 @@ func genHandlers(c *genCtx) error {
 		mem := classMembers(ss)
 		conts := [][]byte{[]byte("5"), []byte("0"), []byte(`"`)}
 		if c.thorough() {
-			conts = tokenCompletions(ss)
+			conts = append(conts, []byte(`n"`), []byte("00"), []byte(`":0`), []byte("e"), []byte("1"))
 		}
 		parallelBases(sweepBases(ss, true, false, c.rng), c.st, c.rng, func(base sweepBase, rng *rand.Rand, st *genStats, w *sweepWorker) {
 			s := base.st
@@ -246,7 +246,8 @@ func genHandlers(c *genCtx) error {
 			default:
 				return
 			}
-			o := sweepOpts{allBytes: c.thorough() && !base.edge, stop: !base.edge, rejectConts: conts, rejectAll: false}
+			// (all 256 byte values per state are tried by the parse family; here three members of every class)
+			o := sweepOpts{allBytes: false, stop: !base.edge, rejectConts: conts, rejectAll: false}
 			if base.edge && !c.thorough() {
 				o.rejectConts = conts[:1] // every transition is taken; fewer continuations and strategies per input
 			}
@@ -258,7 +259,7 @@ func genHandlers(c *genCtx) error {
 					if !base.edge || c.thorough() || n%3 == 0 {
 						runHandle(c.sw, &w.j, kind, in, nil, exact, &w.used, st, "sw")
 					}
-					if viable && (c.thorough() || n%8 == 0) {
+					if viable && n%8 == 0 {
 						// mixed strategies on (possibly completed) documents
 						runHandle(c.sw, &w.j, kind, in, []answer{zero, exact, zero, exact}, exact, nil, st, "sw")
 						runHandle(c.sw, &w.j, kind, in, []answer{exact, zero, exact, zero}, zero, &w.used, st, "sw")
@@ -272,7 +273,7 @@ func genHandlers(c *genCtx) error {
 	if c.want("random") {
 		n := 1500
 		if c.thorough() {
-			n = 20000
+			n = 1500
 		}
 		for i := 0; i < n; i++ {
 			g := &docGen{rng: c.rng, maxDepth: 1 + c.rng.Intn(4), maxWidth: 1 + c.rng.Intn(6),
@@ -286,9 +287,11 @@ func genHandlers(c *genCtx) error {
 		docs = append(docs, loadWalks(c.walksPath)...)
 	}
 	if c.want("corpus") {
+		nCorpus := 0
 		for _, d := range corpusFiles(c.tier, c.rng) {
-			if f := firstNonWS(d); f == '[' || f == '{' || f == 'n' {
+			if f := firstNonWS(d); (f == '[' || f == '{' || f == 'n') && nCorpus < 3000 {
 				docs = append(docs, d)
+				nCorpus++
 			}
 		}
 	}
@@ -300,9 +303,6 @@ func genHandlers(c *genCtx) error {
 		}
 		variants := [][]byte{d}
 		nm := 1
-		if c.thorough() {
-			nm = 3
-		}
 		for k := 0; k < nm; k++ {
 			variants = append(variants, mutate(c.rng, d))
 		}
@@ -330,7 +330,7 @@ func genHandlers(c *genCtx) error {
 				}
 				runHandle(c.sw, &j, kind, v, sc, zero, used, c.st, "mix")
 			}
-			if nc > 12 && !c.thorough() {
+			if nc > 12 {
 				nc = 12
 			}
 			// an error at every call position k, with every kind of accompanying offset
@@ -366,7 +366,7 @@ func genHandlers(c *genCtx) error {
 					runHandle(c.sw, &j, kind, v, sc, zero, []*rjson.Buffer{nil, used}[c.rng.Intn(2)], c.st, "hostile")
 				}
 				// every offset into the member and a little beyond (mid-token answers)
-				if c.thorough() || k < 3 {
+				if (c.thorough() && k < 6) || k < 3 {
 					lim := rest + 2
 					if lim > 24 {
 						lim = 24
